@@ -3,6 +3,9 @@
 # listed yet and that one of the rules below explains; prints the classes no rule explains.
 import json, re, sys
 KF='/verif/known_findings.jsonl'
+F=r'(:diagram-has-(underscore-reference|glob|import))?'
+T=r'(:target-(inherited|local|absent|unknown))?'
+Q=F+T
 R=[
 # C36
 ('C36', r'^import-update-result-does-not-compile:remove:', 'UpdateImport(text, path, nil) on `a: {style: @sx}` (an import used as the value of a reserved key that needs a value) only drops the import and leaves the bare key `style`, which does not compile'),
@@ -15,30 +18,34 @@ R=[
 ('C37', r'^set:connection-label(:block-string)?:new-value-appended-to-old-value', 'Set(label) on a connection whose reference has both a primary value and a map (`(b -> c)[0]: L5 {style.stroke: …}`) replaces the map by the new value and keeps the old primary: the text becomes `(b -> c)[0]: L5 vx` and the label "L5 vx"'),
 ('C37', r'^set:(object|connection)-label(:block-string)?:other-value:', 'Set(label) in a state where another reference of the same element still supplies a label (several indexed references / an inherited `x.label` key): the value written is not the one that wins'),
 # C38
-('C38', r'^delete-attribute:label(:target-(inherited|local))?:attribute-not-reset', 'Delete("x.label") / Delete("(a -> b)[0].label") is a silent no-op when the label is the primary value (`x: L`, `a -> b: L`) or a flat `x.label` key: deleteReserved handles only near/tooltip/icon/width/height/left/top/link and nested style/label/icon sub-keys'),
-('C38', r'^delete-attribute:shape:attribute-not-reset', 'Delete("x.shape") is a silent no-op: `shape` is not in the list of reserved fields deleteReserved handles, the call succeeds and the shape stays'),
-('C38', r'^delete-attribute:near:attribute-not-reset', 'Delete("x.near") removes one `near` key per reference; when the map holds the key twice (Set(x.near) appends a second `near: a` next to an existing one instead of updating it) one copy survives'),
-('C38', r'^delete-attribute:style\.fill:attribute-not-reset', 'Delete("\\"q.r\\".style.fill") on an object whose name needs quotes is a silent no-op: deleteObjField compares the unquoted path element `q.r` with obj.ID `"q.r"` (quoted), so the flat key is never found'),
-('C38', r'^delete-attribute:label.*:other-field-of-target-changed', 'Delete("(a -> b)[0].label") on a connection whose map contains `target-arrowhead: {label: …}` removes the ARROWHEAD label (deleteMapField recurses into arrowhead/style/label/icon maps looking for the bare field name) and keeps the connection label'),
-('C38', r'^delete-attribute:label:diagram-has-import:(element-count-changed|other-connection-removed)', 'Delete of the label of an imported connection appends `(i -> j)[0].label: null`, which removes the whole connection (and renumbers its parallel siblings) instead of resetting the label'),
-('C38', r'^delete-attribute:style\.(stroke|opacity|fill):diagram-has-glob:other-', 'Delete of a style attribute that the element only has through a glob deletes the glob statement itself (`(* -> *)[*].style.stroke: red`), so every other element loses the attribute too'),
-('C38', r'^delete-object:diagram-has-import:object-(lost|label-changed)', 'Delete of a container whose children come from a spread import inside its map (`c: {...@y}`) drops the import with the container: the imported children (and their labels) are lost instead of being moved to the parent'),
-('C38', r'^delete-object(:target-local)?:object-added', 'Delete of a container hoists a grandchild connection `e -> _.b` (inside d inside the deleted a) with its underscore stripped (bumpChildrenUnderscores removes one level at every depth): `e -> b` inside d now creates a new object d.b instead of pointing at the hoisted b'),
-('C38', r'^delete-object:target-inherited:object-lost', 'Delete of an inherited container in a scenario/step board appends `m: null`, which removes the container together with its children in that board; the children are not kept'),
+('C38', r'^delete-attribute:label'+Q+r':attribute-not-reset', 'Delete("x.label") / Delete("(a -> b)[0].label") is a silent no-op when the label is the primary value (`x: L`, `a -> b: L`) or a flat `x.label` key: deleteReserved handles only near/tooltip/icon/width/height/left/top/link and nested style/label/icon sub-keys'),
+('C38', r'^delete-attribute:shape'+Q+r':attribute-not-reset', 'Delete("x.shape") is a silent no-op: `shape` is not in the list of reserved fields deleteReserved handles, the call succeeds and the shape stays'),
+('C38', r'^delete-attribute:near'+Q+r':attribute-not-reset', 'Delete("x.near") removes one `near` key per reference; when the map holds the key twice (Set(x.near) appends a second `near: a` next to an existing one instead of updating it) one copy survives'),
+('C38', r'^delete-attribute:style\.(fill|stroke|opacity)'+Q+r':attribute-not-reset', 'Delete("\\"q.r\\".style.fill") on an object whose name needs quotes is a silent no-op: deleteObjField compares the unquoted path element `q.r` with obj.ID `"q.r"` (quoted), so the flat key is never found'),
+('C38', r'^delete-attribute:label:diagram-has-import'+T+r':(element-count-changed|other-connection-removed)', 'Delete of the label of an imported connection appends `(i -> j)[0].label: null`, which removes the whole connection (and renumbers its parallel siblings) instead of resetting the label'),
+('C38', r'^delete-attribute:label'+Q+r':other-field-of-target-changed', 'Delete("(a -> b)[0].label") on a connection whose map contains `target-arrowhead: {label: …}` removes the ARROWHEAD label (deleteMapField recurses into arrowhead/style/label/icon maps looking for the bare field name) and keeps the connection label'),
+('C38', r'^delete-attribute:style\.(stroke|opacity|fill):diagram-has-glob'+T+r':other-', 'Delete of a style attribute that the element only has through a glob deletes the glob statement itself (`(* -> *)[*].style.stroke: red`), so every other element loses the attribute too'),
+('C38', r'^delete-object:diagram-has-import'+T+r':object-(lost|label-changed)', 'Delete of a container whose children come from a spread import inside its map (`c: {...@y}`) drops the import with the container: the imported children (and their labels) are lost instead of being moved to the parent'),
+('C38', r'^delete-object:diagram-has-underscore-reference'+T+r':object-added', 'Delete of a container hoists a grandchild connection `e -> _.b` (inside d inside the deleted a) with its underscore stripped (bumpChildrenUnderscores removes one level at every depth): `e -> b` inside d now creates a new object d.b instead of pointing at the hoisted b'),
+('C38', r'^delete-object'+F+r':target-inherited:object-lost', 'Delete of an inherited container in a scenario/step board appends `m: null`, which removes the container together with its children in that board; the children are not kept'),
 # C39
-('C39', r'^(rename|move-[a-z-]+):diagram-has-import:object-added', 'Rename / Move of an object that comes from an imported file succeeds but can only rewrite the local references (`a -> i` becomes `a -> z`): the imported object keeps its name and place and a new empty object appears'),
-('C39', r'^move-with(out)?-descendants(:target-(local|inherited))?:object-(label|attributes)-changed', 'Move of an object declared through a flat key (`a.b: L1 {style.fill: …}`) across scopes when another scope refers to it with underscores (`_.a.b`) slices the wrong key: label and style end up on the former parent (`a: L1 {…}`) and the moved object is left bare'),
-('C39', r'^move-with-descendants:object-lost', 'Move(d, a.d, includeDescendants) when d\'s map only holds an underscore reference (`d: L5 {_.a.b}`) deletes d altogether: the key is removed from its scope and never re-inserted'),
-('C39', r'^move-without-descendants:object-(added|lost)', 'Move of a container WITHOUT its descendants into its own former child or grandchild (`Move(a, a.c.a)`) updates connection references as if the old path still existed (`a.c.a -> e`): a new object chain a.c.a is created at the root and the moved object loses label/attributes'),
+('C39', r'^(rename|move-[a-z-]+):diagram-has-import'+T+r':object-added', 'Rename / Move of an object that comes from an imported file succeeds but can only rewrite the local references (`a -> i` becomes `a -> z`): the imported object keeps its name and place and a new empty object appears'),
+('C39', r'^move-[a-z-]+:diagram-has-import'+T+r':object-lost', 'Move of a container whose children come from a spread import inside its map (`c: {...@y}`) without its descendants re-creates the container without the import: the imported children are lost instead of staying in the former parent'),
+('C39', r'^move-with(out)?-descendants:diagram-has-underscore-reference'+T+r':object-(label|attributes)-changed', 'Move of an object declared through a flat key (`a.b: L1 {style.fill: …}`) across scopes when another scope refers to it with underscores (`_.a.b`) slices the wrong key: label and style end up on the former parent (`a: L1 {…}`) and the moved object is left bare'),
+('C39', r'^move-with-descendants:diagram-has-underscore-reference'+T+r':object-lost', 'Move(d, a.d, includeDescendants) when d\'s map only holds an underscore reference (`d: L5 {_.a.b}`) deletes d altogether: the key is removed from its scope and never re-inserted'),
+('C39', r'^move-with-descendants:diagram-has-underscore-reference'+T+r':object-added', 'Move of a container whose map refers with underscores to an object with a quoted dotted name (`e -> _.a."q.r"`) re-quotes the already formatted ID (`_.\'"q.r"\'`): the connection is re-attached to a new object named `"q.r"` with the quotes in the name'),
+('C39', r'^move-without-descendants'+F+r':object-(added|lost)', 'Move of a container WITHOUT its descendants into its own former child or grandchild (`Move(a, a.c.a)`) updates connection references as if the old path still existed (`a.c.a -> e`): a new object chain a.c.a is created at the root and the moved object loses label/attributes'),
+('C39', r'^move-with(out)?-descendants'+F+r':target-local:object-lost', 'Move, addressed to a scenario board, of an object that the board declares through a flat key (`m.n`) to the board root removes the key segment and never re-inserts the object: `m.n` becomes `m` and n is lost'),
+('C39', r'^rename'+F+r':target-local:object-lost', 'Rename, addressed to a step board, to a name that the same board deletes further down (`a: null`) is not made unique (the nulled name counts as free): the renamed object is then removed by the null'),
 # C40
-('C40', r'^deltas:delete:connection:change-predicted-for-removed-element', 'DeleteIDDeltas of a container predicts a new ID for a connection between a child and the container itself (`(a.a -> a)[0]` -> `(a -> a)[0]`), but Delete removes that connection because it is attached to the deleted object'),
-('C40', r'^deltas:(delete|move):connection:predicted-new-id-wrong', 'consequence of the underscore-stripping defect of Delete/Move (C38 delete-object:object-added): the surviving connection `e -> _.b` ends up attached to a new object d.b, so its ID is d.(e -> b)[0] while the prediction says (d.e -> b)[0]'),
-('C40', r'^deltas:(move|rename|reconnect):diagram-has-import:', 'the *IDDeltas functions predict new IDs for imported objects/connections, while Rename/Move/ReconnectEdge succeed without being able to change an imported element (see C39 …:diagram-has-import:object-added)'),
-('C40', r'^deltas:move:object:predicted-new-id-wrong', 'MoveIDDeltas applies the would-be-hoisted-children conflict renames (`a.b` -> `z.b 3`) also for a same-scope move without descendants, where Move keeps the children under the renamed object unchanged (`z.b`)'),
-('C40', r'^deltas:reconnect:connection:predicted-change-did-not-happen', 'ReconnectEdgeIDDeltas treats connections with the same end points but different arrow directions (`a <- b` and `a -> b`) as parallel and predicts index shifts for them; the edit does not renumber them'),
-('C40', r'^deltas:reconnect:connection:(predicted-new-id-wrong|change-not-predicted)', 'ReconnectEdgeIDDeltas derives the new index from source line numbers of first references; ReconnectEdge splits chains / rewrites indexed references so the reconnected connection gets a different index among its new parallel siblings (and siblings shift) than predicted'),
-('C40', r'^deltas:rename:connection:(change-not-predicted|predicted-new-id-wrong)', 'RenameIDDeltas for a connection (arrow change) predicts only `old -> same index with new arrows`; the edit moves the connection to another group of parallel connections, so its index becomes its rank there and the later members of the old group shift down, none of which is predicted'),
-('C40', r'^deltas:rename:object:(change-not-predicted|predicted-new-id-wrong|predicted-change-did-not-happen)', 'Rename makes the new name unique with generateUniqueKey(newName) evaluated at the ROOT of the board, RenameIDDeltas with the full path: for a nested object the two disagree on the numbered suffix (`a.b 2` vs `a.b 3`), and Rename(x, own name) is predicted as no change while the edit produces `a.a 2`'),
+('C40', r'^deltas:delete'+F+r':connection:change-predicted-for-removed-element', 'DeleteIDDeltas of a container predicts a new ID for a connection between a child and the container itself (`(a.a -> a)[0]` -> `(a -> a)[0]`), but Delete removes that connection because it is attached to the deleted object'),
+('C40', r'^deltas:(delete|move):diagram-has-underscore-reference:connection:predicted-new-id-wrong', 'consequence of the underscore-stripping defect of Delete/Move (C38 delete-object:…:object-added): the surviving connection `e -> _.b` ends up attached to a new object d.b, so its ID is d.(e -> b)[0] while the prediction says (d.e -> b)[0]'),
+('C40', r'^deltas:(move|rename|reconnect|delete):diagram-has-import:', 'the *IDDeltas functions predict new IDs for imported objects/connections (or for local elements next to them), while Rename/Move/ReconnectEdge/Delete succeed without being able to change an imported element (see C39 …:diagram-has-import:object-added, C38 …:diagram-has-import:…)'),
+('C40', r'^deltas:move'+F+r':object:predicted-new-id-wrong', 'MoveIDDeltas applies the would-be-hoisted-children conflict renames (`a.b` -> `z.b 3`) also for a same-scope move without descendants, where Move keeps the children under the renamed object unchanged (`z.b`)'),
+('C40', r'^deltas:reconnect'+F+r':connection:predicted-change-did-not-happen', 'ReconnectEdgeIDDeltas treats connections with the same end points but different arrow directions (`a <- b` and `a -> b`) as parallel and predicts index shifts for them; the edit does not renumber them'),
+('C40', r'^deltas:reconnect'+F+r':connection:(predicted-new-id-wrong|change-not-predicted)', 'ReconnectEdgeIDDeltas derives the new index from source line numbers of first references; ReconnectEdge splits chains / rewrites indexed references so the reconnected connection gets a different index among its new parallel siblings (and siblings shift) than predicted'),
+('C40', r'^deltas:rename'+F+r':connection:(change-not-predicted|predicted-new-id-wrong)', 'RenameIDDeltas for a connection (arrow change) predicts only `old -> same index with new arrows`; the edit moves the connection to another group of parallel connections, so its index becomes its rank there and the later members of the old group shift down, none of which is predicted'),
+('C40', r'^deltas:rename'+F+r':object:(change-not-predicted|predicted-new-id-wrong|predicted-change-did-not-happen)', 'Rename makes the new name unique with generateUniqueKey(newName) evaluated at the ROOT of the board, RenameIDDeltas with the full path: for a nested object the two disagree on the numbered suffix (`a.b 2` vs `a.b 3`), and Rename(x, own name) is predicted as no change while the edit produces `a.a 2`'),
 # C41
 ('C41', r'^after-(successful|refused)-rename:target-inherited:', 'Rename of an inherited connection (arrow direction) addressed to a scenario/step board rewrites the arrows of ALL references of the edge, including the one in the base board (move() for edges has no writeable-reference check and looks the edge up in g.Root); when the recompile then fails (an indexed reference elsewhere no longer matches) the base AST stays modified'),
 ('C41', r'^after-successful-delete:target-inherited:', 'Delete of a style / near attribute of an inherited element addressed to a scenario/step board removes the key in the board that defines it (deleteObjField / deleteEdgeField only compare the file path of a reference, not its board), so the base board or an earlier step changes'),
